@@ -186,12 +186,12 @@ def handle : List String → String
       | .crc n => s!"crc {n}"
       | .panic => "panic"
     | none => "bad-op"
-  | ["cz", c, cd, ah, ninf, ci, ch] =>
-    match parseCause c, parseBool cd, ah.toNat?, ninf.toNat?, ci.toNat?, ch.toNat? with
-    | some c, some cd, some ah, some ninf, some ci, some ch =>
+  | ["cz", c, cd, ah, ninf, ci, ch, ep] =>
+    match parseCause c, parseBool cd, ah.toNat?, ninf.toNat?, ci.toNat?, ch.toNat?, parseBool ep with
+    | some c, some cd, some ah, some ninf, some ci, some ch, some ep =>
       let (t, code, k) := causeTable c cd
-      s!"{t} {code} {pointerOf k ah ninf ci ch}"
-    | _, _, _, _, _, _ => "bad-op"
+      s!"{t} {code} {pointerOf k ah ninf ci ch ep}"
+    | _, _, _, _, _, _, _ => "bad-op"
   | _ => "bad-op"
 
 end Driver.Scmp
